@@ -65,7 +65,17 @@ def handleTile (op : String) (inp : Json) (impl : Option Json) : R (Option Json)
     match transferFields hasWeight cn segs with
     | .unchanged o => pure (some (obj [("kind", strJ "unchanged"), ("out", arrJ (o.map segOJ))]))
     | .nullRow r => pure (some (obj [("kind", strJ "null"), ("out", arrJ [segOJ r])]))
-    | .table o => pure (some (obj [("kind", strJ "table"), ("out", arrJ (o.map segOJ))]))
+    | .table o =>
+      -- the Lean spec oracle on the real rows (they carry every column once gene / weight / depth are assigned)
+      let spec ← (match impl with
+        | some ij =>
+          match optFld ij "segs", optFld ij "kind" with
+          | some sj, some (Json.str "rows") => do
+            let rows ← getList getSegO sj
+            pure (arrJ ((transferSpec hasWeight cn rows).map strJ))
+          | _, _ => pure Json.null
+        | none => pure Json.null)
+      pure (some (obj [("kind", strJ "table"), ("out", arrJ (o.map segOJ)), ("spec", spec)]))
   | _ => pure none
 
 end CnvVerif.Drv
